@@ -683,6 +683,15 @@ impl Context {
             }
         }
 
+        if self.sweep.is_none() {
+            // That was the last object of the sweep list: the cycle is complete. Report it now
+            // rather than on the next call, because if the sweep has just released the last
+            // allocation of the arena the debt reads zero and a debt-driven caller would stop one
+            // (empty) step short of `Phase::Sleep`.
+            self.sweep_prev.set(None);
+            return ControlFlow::Break(());
+        }
+
         ControlFlow::Continue(())
     }
 
